@@ -30,20 +30,20 @@ import (
 	_ "github.com/sassoftware/relic/v8/signers/appmanifest"
 	_ "github.com/sassoftware/relic/v8/signers/appx"
 	_ "github.com/sassoftware/relic/v8/signers/cab"
+	_ "github.com/sassoftware/relic/v8/signers/cat"
+	_ "github.com/sassoftware/relic/v8/signers/cosign"
 	_ "github.com/sassoftware/relic/v8/signers/deb"
 	_ "github.com/sassoftware/relic/v8/signers/dmg"
-	_ "github.com/sassoftware/relic/v8/signers/rpm"
-	_ "github.com/sassoftware/relic/v8/signers/xap"
-	_ "github.com/sassoftware/relic/v8/signers/xar"
-	_ "github.com/sassoftware/relic/v8/signers/cat"
 	_ "github.com/sassoftware/relic/v8/signers/jar"
+	_ "github.com/sassoftware/relic/v8/signers/macho"
 	_ "github.com/sassoftware/relic/v8/signers/msi"
 	_ "github.com/sassoftware/relic/v8/signers/pecoff"
 	_ "github.com/sassoftware/relic/v8/signers/pgp"
-	_ "github.com/sassoftware/relic/v8/signers/cosign"
-	_ "github.com/sassoftware/relic/v8/signers/macho"
 	_ "github.com/sassoftware/relic/v8/signers/ps"
+	_ "github.com/sassoftware/relic/v8/signers/rpm"
 	_ "github.com/sassoftware/relic/v8/signers/vsix"
+	_ "github.com/sassoftware/relic/v8/signers/xap"
+	_ "github.com/sassoftware/relic/v8/signers/xar"
 )
 
 // auxDir is an untracked scratch directory for harness-side files (fixture
@@ -126,7 +126,10 @@ type reqSpec struct {
 	Body   []byte
 	Peer   string // ip:port of the direct peer
 	TLS    *world.Identity
-	Header http.Header
+	// TLSExtra are further certificates the peer sent after its leaf (they
+	// are public data: anybody can append anybody's certificate)
+	TLSExtra []*world.Identity
+	Header   http.Header
 	// ChunkSize, when set, decides how many bytes each body Read returns.
 	ChunkSize func(remaining int) int
 	// Timeout, when set, is the virtual time after which the caller gives up
@@ -203,6 +206,9 @@ func serve(h http.Handler, rs reqSpec) *respRec {
 	req.TLS = nil
 	if rs.TLS != nil {
 		req.TLS = &tls.ConnectionState{HandshakeComplete: true, PeerCertificates: []*x509.Certificate{rs.TLS.Cert}}
+		for _, x := range rs.TLSExtra {
+			req.TLS.PeerCertificates = append(req.TLS.PeerCertificates, x.Cert)
+		}
 	} else {
 		req.TLS = &tls.ConnectionState{HandshakeComplete: true}
 	}
